@@ -107,16 +107,25 @@ def finally_case(c):
     act = lambda: n.__setitem__("a", n["a"] + 1)  # noqa: E731
     op = ops.finally_action(act) if c["op"] == "finally_action" else _do.do_finally(act)
     got = []
-    d = src.pipe(op).subscribe(lambda v: got.append(("N", v)), lambda e: got.append(("E", type(e).__name__)), lambda: got.append(("C",)))
+
+    def term(ev):
+        got.append(ev)
+        if c.get("subscriber_raises"):
+            raise Boom("subscriber")  # the subscriber's own terminal handler fails (the default on_error handler re-raises, too)
+    d = src.pipe(op).subscribe(lambda v: got.append(("N", v)), lambda e: term(("E", type(e).__name__)), lambda: term(("C",)))
     for step in c["steps"]:
-        if step == "dispose":
-            d.dispose()
-        elif step == "next":
-            src.send("on_next", 1)
-        elif step == "complete":
-            src.send("on_completed")
-        elif step == "error":
-            src.send("on_error", Boom("src"))
+        try:
+            if step == "dispose":
+                d.dispose()
+            elif step == "next":
+                src.send("on_next", 1)
+            elif step == "complete":
+                src.send("on_completed")
+            elif step == "error":
+                src.send("on_error", Boom("src"))
+        except Boom:
+            if not c.get("subscriber_raises"):
+                raise
     ended = any(s in ("dispose", "complete", "error") for s in c["steps"])
     want = 1 if ended else 0
     if n["a"] != want:
@@ -173,6 +182,8 @@ def cases():
         for t in tails:
             for pre in ([], ["next"]):
                 yield {"k": "finally", "op": op, "steps": pre + t}
+                if t and t[0] in ("complete", "error"):
+                    yield {"k": "finally", "op": op, "steps": pre + t, "subscriber_raises": True}
     for t in (["next", "next", "complete"], ["next", "error"], ["complete"], ["next"]):
         yield {"k": "do", "steps": t, "raise_at": None}
         for r in range(1, len(t) + 1):
